@@ -155,14 +155,16 @@ CLAIMS["C13"] = {
 CLAIMS["C10"] = {
     "text": "Bounded: (a) VariadicColumnMultiset of the real variadics crate is checked by Kani against a multiset-of-tuples oracle (schema (u8,u8), <= 3 "
             "inserts from new()): insert always reports true and len counts with multiplicity, iter/into_iter/drain yield exactly the inserted tuples, "
-            "contains agrees with membership, drain leaves an empty reusable collection with no stale tuple, extend is repeated insert. "
+            "contains agrees with membership, drain leaves an empty reusable collection with no stale tuple, extend is repeated insert -- also from a havoc "
+            "iterator that answers ANY size_hint the Iterator contract allows (<= 2 offered tuples, onto an empty or one-tuple multiset, followed by one more insert). "
             "(b) VariadicHashSet and VariadicCountedHashSet: variadic_collections.rs is extracted verbatim (whole file, one stated substitution "
             "crate:: -> variadics::) and compiled against a contract double of hashbrown::hash_table; for <= 3 inserted tuples over a 2 x 2 domain: "
             "the set's insert reports true exactly for a new tuple, len counts distinct tuples, contains = membership, iter yields every distinct tuple "
             "once; the counted set's insert always reports true, len counts every insert, contains = membership, the stored multiplicity of every tuple "
-            "is its number of inserts; (thorough) set equality is equality of tuple sets and counted-set equality is multiset equality, whatever the "
-            "insertion order; (thorough) the same two types on the REAL hashbrown table for one tuple.",
-    "note": "NOT covered: iteration and drain of VariadicCountedHashSet (flat_map over a symbolic multiplicity: > 900 s of CBMC even for one tuple), extend / "
+            "is its number of inserts; the set's extend from a havoc iterator (any legal size_hint, <= 2 offered tuples) is repeated insert; (thorough) set equality "
+            "is equality of tuple sets and counted-set equality is multiset equality, whatever the insertion order, including multiplicities "
+            "({a,a,b} != {a,b,b}, three inserts per side); (thorough) the same two types on the REAL hashbrown table for one tuple.",
+    "note": "NOT covered: iteration and drain of VariadicCountedHashSet (flat_map over a symbolic multiplicity: > 900 s of CBMC even for one tuple), extend of the counted set (measured > 8 min and > 30 GB of CBMC), "
             "FromIterator / into_iter of the two hash-backed sets, GHT users of these collections. Trusted: the hashbrown::hash_table contract double (an "
             "insertion-ordered list searched with the caller's eq closure; the hash value is ignored), std Vec.",
     "technique": "contract-based verification: Kani bounded harness contracts on the real collection code (extracted mechanically) against tuple set / multiset oracles, hashbrown by contract",
@@ -221,12 +223,18 @@ CLAIMS["C05"] = {
             "TombstoneSet implementation (operands of <= 2 elements over a 4-value domain, well-formed: live and tombstones disjoint) against the "
             "documented model tombstones' = t1 ∪ t2, live' = (s1 ∪ s2) minus tombstones': the result is exactly the model, live and tombstones stay "
             "disjoint (nothing resurrected), `changed` iff the value differs, partial_cmp is the order induced by the model join, and a short "
-            "history shows a deleted item never reappears when live copies are merged later.",
-    "note": "NOT covered: that RoaringTombstoneSet (roaring crate) and FstTombstoneSet (fst crate) satisfy the TombstoneSet contract, hence "
-            "'backends are interchangeable'; MapUnionWithTombstones comparisons. A change inside tombstone.rs's adapters is not detected; a change "
-            "in the merge/compare algorithm is.",
+            "history shows a deleted item never reappears when live copies are merged later. The ROARING backend's adapter is under contract too (unit vk_tomb): "
+            "struct RoaringTombstoneSet and every impl of it are spliced from tombstone.rs on every run and compiled over a contract double of "
+            "roaring::RoaringTreemap; for <= 2 keys present and <= 2 keys offered (4-value u64 domain over both 32-bit halves, havoc size_hint) it satisfies the "
+            "TombstoneSet contract the merge harnesses assume: extend / from_iter add exactly the offered keys in any order and with re-deliveries, "
+            "union_with is set union and returns the old length, len is the cardinality, contains is membership, into_iter yields every key once. "
+            "Together: the roaring-backed lattices behave like the model (hence like the hash-set backend) provided RoaringTreemap behaves as documented.",
+    "note": "NOT covered: FstTombstoneSet (fst crate: its adapter sorts and dedups Strings and rebuilds an FST -- outside CBMC's reach, no double written), "
+            "hence 'backends are interchangeable' for FST; MapUnionWithTombstones comparisons. A change inside the FST adapter is not detected; a change in "
+            "the merge/compare algorithm or in the roaring adapter is. Trusted: the RoaringTreemap contract double (ascending array of <= 4 values, "
+            "documented behaviour of roaring 0.11.4 including append's consumption of the first out-of-order value).",
     "technique": "contract-based verification: Kani bounded harness contracts on the real algorithms against a set model, callee collections by contract",
-    "design": "DESIGN.md §5 C05",
+    "design": "DESIGN.md §5 C05, §14.10",
 }
 CLAIMS["C06"] = {
     "text": "Partial, bounded: Atomize::atomize of SetUnion (operands <= 2 elements) and of WithTop<SetUnion> (<= 1 element, thorough): every atom is "
@@ -247,8 +255,10 @@ CLAIMS["C07"] = {
     "text": "PairBimorphism::call is verified by Verus generically (r.a == lat_a, r.b == lat_b) and both distributivity equations are a lemma over "
             "the product carrier (lemma_pair_bimorphism). CartesianProductBimorphism::call is checked by Kani against its model (output == A x B, "
             "every pair once; distributivity over union is then set algebra about the model) and, in the thorough tier, by the two-call "
-            "distributivity equation (operands <= 2 elements); KeyedBimorphism::call against its key-wise model for one entry per side (concrete keys, symbolic one-element value sets).",
-    "note": "GHT bimorphisms are not covered (see C08). KeyedBimorphism::call is covered for one entry per side with CONCRETE keys (same key: exactly that key is kept and its value is the value bimorphism's output; different keys: empty result) -- with symbolic keys the same harness needs 30 min of CBMC and is kept with a `deep_` prefix in no tier. Kani parts are bounded by operand size; Vec as output collection is trusted.",
+            "distributivity equation (operands <= 2 elements); KeyedBimorphism::call against its key-wise model for one entry per side (concrete keys, symbolic one-element value sets) and, modularly (a cheap tagging value "
+            "bimorphism on Max), for 2-3 entries per side in four concrete key shapes (either side larger; the unmatched key first, in the middle or last in iteration order): "
+            "the output holds exactly the common keys, each once, with the value bimorphism's output for that key.",
+    "note": "GHT bimorphisms are not covered (see C08). KeyedBimorphism::call is covered with CONCRETE keys only (one entry per side: same key / different keys; 2-3 entries per side: four key shapes) -- with symbolic keys the same harness needs 30 min of CBMC and is kept with a `deep_` prefix in no tier. Kani parts are bounded by operand size; Vec as output collection is trusted.",
     "technique": "contract-based deductive verification (Verus on the spliced body + lemma; Kani harness contracts against the product model)",
     "design": "DESIGN.md §5 C07",
 }
